@@ -4,7 +4,7 @@
 From Coq Require Import Extraction ExtrOcamlBasic.
 From Coq Require Import List NArith ZArith String.
 From Gen Require Import Tables.
-From Model Require Import Base Names Flt F32 Matches Detect Declared Cd Decode Cli.
+From Model Require Import Base Names Flt F32 Matches Detect Declared Cd Decode Cli Md Md32.
 
 Extraction Language OCaml.
 Separate Extraction
@@ -19,4 +19,5 @@ Separate Extraction
   Declared.any_specified_encoding
   Cd.coherence_ratio Cd.merge_coherence_ratios Cd.filter_alt Cd.most_common
   Decode.helper Decode.utf8_decoder Decode.sb_decoder
-  Cli.run.
+  Cli.run
+  Md.mess_ratio Md.suspicious Md32.md_consts32.
